@@ -15,16 +15,33 @@ RULE = ("fmt-grid: every shipped locale x 7 units x counts (0..130 + plural-clas
         "fmt-boundary: component records at every rounding threshold (+-1) x all flags x all locales (seed-rotated subset of the product in quick); "
         "words: Duration.in_words / Interval.in_words on component records of either sign, microsecond-only and zero durations, all locales; "
         "tokens: every locale x 12 months x 7 weekdays x AM/PM x all locale-dependent tokens; plural/ordinal: lambdas on 0..1200 and large values; "
-        "instants: random and boundary pairs of instants (several zones) through diff_for_humans(other)/Date/Time and real Duration/Interval objects. "
+        "instants: random and boundary pairs of instants in one zone through diff_for_humans(other)/Date/Time and real Duration/Interval objects; "
+        "instants-xz: the two instants written in DIFFERENT zones (negative and positive non-whole-hour offsets: St_Johns, Marquesas, Caracas, Kathmandu, Lord_Howe, "
+        "Chatham, fixed -23:59..+23:59), a deterministic block of negative odd offsets x 4 partner zones x 7 spans, the witnesses of the listed findings "
+        "(second occurrence of a repeated wall time, wall-clock order inside a repeated hour, mis-carried UTC shift of the compiled helper), random pairs with spans "
+        "from 1 s to 13 years; both instants streams are INSIDE the model (Model/DiffHumans.v: components, invert and phrase are compared per backend); "
+        "session: ONE case = a whole history of the process executed in order — set_locale with shipped names in several spellings, with names that are REJECTED "
+        "(unknown, not a str), get_locale, pendulum.locale, and rendering calls with and without a locale argument (format_diff, in_words, format tokens on duck-typed "
+        "records: modelled by the state machine Model/LocaleSession.v; diff_for_humans of real DateTime/Date/Time and str(duration): oracle only) — per shipped locale, "
+        "the shortest reject-then-render histories, and random histories; "
+        "default-locale: calls without a locale argument and without any set_locale of their own must equal the same call with locale=get_locale() (oracle only; "
+        "its canonical result is independent of the configured locale, so the runner's history passes — after rejected configuration calls, under another configuration — apply). "
         "A case is non-trivial when it is a distinct (function, argument) tuple; model (extracted Coq) and implementation are compared string for string, "
         "and the stdlib oracle re-derives the admissible phrases from the locale files parsed with ast.")
 EXHAUSTIVE = {"quick": False, "thorough": True}
 TRUSTED = ["string.Formatter().parse (CPython's own str.format field parser) is used by the generator to split templates into literal text and replacement fields",
            "Coq.Floats.SpecFloat.SFdiv (binary64) models abs(us)/1e6 and '%.2f' is modelled as exact round-half-even of that double (validated by the words-us stream)",
            "the key-construction part of DifferenceFormatter.format and in_words are hand models (coq/Model/DiffFormat.v): the generator pins the source text of that part, "
-           "the correspondence run compares every output string"]
+           "the correspondence run compares every output string",
+           "set_locale / get_locale / Locale.load / Locale.normalize_locale (ASCII names) and the `locale is None` defaults are a hand model (coq/Model/LocaleSession.v) "
+           "compared output by output on whole call histories (stream session); these functions are not yet in tools/pins.json",
+           "Interval's endpoint ordering, fold-less native rebuild and component properties, and both precise_diff backends are the C06 models (Model/PdBase.v, "
+           "PdInterval.v, RustPreciseDiff.v, Gen/PreciseDiff.v) composed in coq/Model/DiffHumans.v; local wall fields and offsets of the operands are computed by "
+           "the harness with datetime + zoneinfo and checked against what pendulum reports"]
 ASSUMPTIONS = ["difference objects carry integer components (years, months, weeks, remaining_days, hours, minutes, remaining_seconds) as produced by Duration/Interval",
-               "locale names are given in normalized form (Locale.normalize_locale / the en_xx -> en fallback are exercised by the oracle only)"]
+               "locale names are ASCII (Locale.normalize_locale is modelled on ASCII code points; str.lower / re.I on non-ASCII names are outside the model), and names that "
+               "name something other than a locale directory inside pendulum/locales ('', '__pycache__') are outside the session streams",
+               "one tzinfo object per zone name (pendulum.timezone caches named and fixed zones), which is how the harness builds its operands"]
 
 REPO = os.environ.get("VERIF_REPO", "/repo")
 UNITS = ["year", "month", "week", "day", "hour", "minute", "second"]
@@ -1241,10 +1258,18 @@ def known(c, backend, r):
 LEVEL_TEXT = ("Machine-checked Coq theorems over the generated tables of ALL shipped locales and the translated unit-selection chain: for every count (unbounded), "
               "every flag combination and every locale the formatter finds its key and every replacement field of the template is substituted (non-empty, brace-free "
               "output), proved via plural_range (a plural lambda only returns its leaves) + finite reflection over locales x units x classes x flags; the same for "
-              "in_words and the locale-dependent tokens; unit/count rounding and direction specs; the two data defects found here (zh {time} templates, nl week_data) were repaired by fix: commits "
+              "in_words and the locale-dependent tokens; unit/count rounding and direction specs; the process-wide default locale as a state machine over whole call "
+              "histories (a rejected set_locale keeps the configuration, the configuration is the last successfully set name and always loads, rendering with the ambient "
+              "locale is total after EVERY history, results with an explicit locale are independent of the history); DateTime.diff_for_humans(other) end to end on the C06 "
+              "precise_diff models (total; direction proved for different tzinfo objects or equal offsets, refuted inside a repeated hour; magnitude refuted for second "
+              "occurrences and for the compiled helper's mis-carried UTC shift — three listed findings with machine-checked witnesses); the two data defects found here (zh {time} templates, nl week_data) were repaired by fix: commits "
               "in /repo, the statements are now proved at full strength and the defects are reported as violations if they return. Exhaustive correspondence model = implementation, string for string.")
 DESIGN_REF = "DESIGN.md section 4 C18"
 LEVEL_NOTE = ("Trusted: Coq kernel+VM, the generator g30_locales (ast -> Gallina tables; str.format field parsing by string.Formatter), the hand model of the key construction "
-              "(its source text is pinned by the generator and every output string is compared), extraction+driver. Components of real Interval objects are inputs "
-              "(C05/C06); the instants stream checks them against stdlib elapsed time.")
+              "(its source text is pinned by the generator and every output string is compared), the hand models LocaleSession.v (default-locale state machine) and "
+              "DiffHumans.v (Interval glue over the C06 precise_diff models), extraction+driver. Inside the model: format_diff/in_words/tokens on component records, "
+              "whole set_locale/get_locale/render histories, DateTime.diff/diff_for_humans(other) on pairs of instants in one or two zones, per backend. Oracle only "
+              "(model_calls gives no output for them): Date/Time.diff_for_humans, real Duration objects, diff_for_humans/str(duration) inside sessions, set_locale of a "
+              "non-str, the default-locale stream, the clock-relative glue calls. For differences compared in UTC below 28 days the oracle demands the exact documented "
+              "rounding of the TRUE elapsed time, elsewhere 'within one unit'.")
 TECHNIQUE = "Coq proof (structural induction on plural ASTs + finite reflection over generated locale tables) over translated data/code; differential correspondence; stdlib oracle"
